@@ -89,6 +89,7 @@ func cmdCheck(prop, tier string) int {
 		return 2
 	}
 	byMod := map[string][]*Contract{}
+	boundedBy := map[string][]*Contract{} // harness -> functions it stands in for (this property)
 	for _, c := range db.Contracts {
 		if c.Extern || (c.Trusted != "" && len(c.Checks) == 0) {
 			continue
@@ -100,6 +101,10 @@ func cmdCheck(prop, tier string) int {
 			}
 		}
 		if !has {
+			continue
+		}
+		if c.Bounded != "" {
+			boundedBy[c.Bounded] = append(boundedBy[c.Bounded], c)
 			continue
 		}
 		m := moduleOf(c.Pkg)
@@ -132,6 +137,14 @@ func cmdCheck(prop, tier string) int {
 			}
 		}
 	}
+	for h := range boundedBy {
+		// the module of a bounded function is loaded too, so that a renamed or removed function is noticed
+		if m := moduleOf(boundedBy[h][0].Pkg); m != "" {
+			if _, ok := byMod[m]; !ok {
+				byMod[m] = nil
+			}
+		}
+	}
 	if len(byMod) == 0 {
 		fmt.Printf("ENGINE-ERROR: no contract carries property %s\n", prop)
 		return 2
@@ -141,6 +154,29 @@ func cmdCheck(prop, tier string) int {
 	var wg sync.WaitGroup
 	var loadErr error
 	var missing []string
+	// bounded stand-ins run beside the proof work (they execute the real code with `go test -overlay`)
+	var bres []*boundedResult
+	var bwg sync.WaitGroup
+	var hnames []string
+	for h := range boundedBy {
+		hnames = append(hnames, h)
+	}
+	sort.Strings(hnames)
+	for _, h := range hnames {
+		h := h
+		r := &boundedResult{Harness: h}
+		for _, c := range boundedBy[h] {
+			r.Functions = append(r.Functions, c.Pkg+"::"+c.Name)
+			r.Why = c.BoundedWhy
+		}
+		sort.Strings(r.Functions)
+		bres = append(bres, r)
+		bwg.Add(1)
+		go func() {
+			defer bwg.Done()
+			runBounded(r, boundedBy[h][0].Pkg, tier)
+		}()
+	}
 	mods := make([]string, 0, len(byMod))
 	for m := range byMod {
 		mods = append(mods, m)
@@ -166,6 +202,15 @@ func cmdCheck(prop, tier string) int {
 			}
 			sort.Slice(cs, func(i, j int) bool { return cs[i].Pkg+cs[i].Name < cs[j].Pkg+cs[j].Name })
 			var local []*FuncResult
+			for _, h := range hnames {
+				for _, c := range boundedBy[h] {
+					if moduleOf(c.Pkg) == mod && len(eng.targets(c)) == 0 {
+						frMu.Lock()
+						missing = append(missing, c.Pkg+"::"+c.Name)
+						frMu.Unlock()
+					}
+				}
+			}
 			for _, lm := range pureLemmas {
 				lmod := moduleOf(lm.Pkg + "/")
 				if lmod == "" {
@@ -260,6 +305,18 @@ func cmdCheck(prop, tier string) int {
 		name string
 	}
 	var failures []failure
+	bwg.Wait()
+	var boundedCov []map[string]interface{}
+	for _, r := range bres {
+		boundedCov = append(boundedCov, r.coverage())
+		for i, fl := range r.Fails {
+			failures = append(failures, failure{nil, nil, "BOUNDED:" + fl + "\n\nharness: " + r.File + "\nrerun: " + r.Cmd, fmt.Sprintf("bounded[%s]/failing-history-%d", r.Harness, i+1)})
+		}
+		if r.Err != "" {
+			failures = append(failures, failure{nil, nil, "bounded harness did not complete: " + r.Err, fmt.Sprintf("bounded[%s]/harness-did-not-complete", r.Harness)})
+		}
+		assumptions[fmt.Sprintf("BOUNDED (not proved): %s stand in for %s — %s", r.describe(), strings.Join(r.Functions, ", "), r.Why)] = true
+	}
 	for _, m := range missing {
 		// contract for a function that no longer exists
 		failures = append(failures, failure{nil, nil, "function under contract not found in /repo (renamed or removed)", m + "/contract-target"})
@@ -456,6 +513,12 @@ func cmdCheck(prop, tier string) int {
 				_ = os.WriteFile(sp, []byte(f.o.Script+"(check-sat)\n"), 0o644)
 				rec["smt2"] = sp
 			}
+		} else if strings.HasPrefix(f.why, "BOUNDED:") {
+			// a failing history of a bounded stand-in IS a failing input, executed on the real code
+			rec["reason"] = "bounded stand-in: the real code violates the property on this history"
+			rec["failing_history"] = strings.TrimPrefix(f.why, "BOUNDED:")
+			rec["reproduced_on_real_code"] = true
+			suffix = ""
 		} else {
 			rec["reason"] = f.why
 		}
@@ -534,7 +597,7 @@ func cmdCheck(prop, tier string) int {
 		"known_findings":           knownLines,
 		"undischarged_known":       known,
 		"solver_disagreements":     disagree,
-		"bounded":                  []string{},
+		"bounded":                  boundedCov,
 		"exhaustive":               false,
 	}
 	ev := map[string]interface{}{
